@@ -15,6 +15,7 @@ state), every user name, every key and both settings of `EnableAuthgrants`.
 -/
 import HopModel.Proofs.Login
 import HopModel.Generated.Consts
+import HopModel.Generated.Shapes
 namespace Login
 open AuthKeys
 
@@ -312,5 +313,17 @@ example : Unconsumed [.addGrant alice k1 7] alice k1 7 := ⟨[], [], rfl, by sim
 example : (login (run (init true) [.addGrant alice k1 7, .login (fun _ => .missing) alice k1])
     (fun _ => .missing) alice k1).1 = .rejected := by decide
 example : (login (run (init false) [.addGrant alice k1 7]) (fun _ => .missing) alice k1).1 = .rejected := by decide
+
+
+/-! ### the tie behind "calls are serialised": the grant map's operations are single critical sections
+
+The models treat `AddAuthGrant` and `RemoveAuthgrants` (look-up *and* removal) as atomic steps.
+That is a fact about authgrants/authgrants.go which the translator regenerates on every run as
+statement shapes; the race suite `C05race` observes the same thing on the running code. -/
+example : Shape.oneCriticalSection "m.agLock" Generated.shape_authgrants_AuthgrantMapSync_RemoveAuthgrants = true := by decide
+example : Shape.oneCriticalSection "m.agLock" Generated.shape_authgrants_AuthgrantMapSync_AddAuthGrant = true := by decide
+/-- the look-up and the removal are both inside it -/
+example : (Generated.shape_authgrants_AuthgrantMapSync_RemoveAuthgrants.filter
+    (fun it => it.text == "val, ok := ags[key]" || it.text == "delete(ags, key)")).length = 2 := by decide
 
 end Login
